@@ -351,6 +351,8 @@ class Interp:
         self.summaries_used = set()
         self.opaque_bytes = set()        # FuncInfo of `-> bytes` helpers summarised as an unconstrained result
         self.opaque_calls = set()
+        self.raw_len: dict = {}
+        self.raw_of: dict = {}            # str(length symbol of an unquoted value) -> BytesV of the raw text
         self.int_prov: dict = {}          # symbol -> ('int', source term, base)
         self.birth: dict[int, State] = {}     # node oid -> state at the end of the loop iteration that produced it
 
@@ -1357,6 +1359,8 @@ class Interp:
             return self.slice(base, lo, hi, step, st, e)
         idx = self.ev(e.slice, st, fi)
         li = self.as_lin(idx)
+        if isinstance(idx, IntV) and idx.lin.is_const() and idx.lin.c.denominator == 1:
+            idx = ConstV(int(idx.lin.c))
         if isinstance(base, ConstV) and isinstance(idx, ConstV):
             try:
                 return self.const_av(base.value[idx.value])
@@ -2042,7 +2046,11 @@ class Interp:
             return r
         if name == "urllib.parse.unquote_to_bytes":
             b = self.as_bytes(a0)
-            return self.fresh_bytes(st, ("unquote_to_bytes", b.term if b else ("?",)), maxlen=b.length if b else None)
+            r = self.fresh_bytes(st, ("unquote_to_bytes", b.term if b else ("?",)), maxlen=b.length if b else None)
+            if b is not None:
+                self.raw_len[_tkey(r.term) + (str(r.length),)] = b.length     # length of the text that was percent-decoded
+                self.raw_of[str(r.length)] = b
+            return r
         if name == "bytes":
             if not args:
                 return ConstV(b"")
@@ -2155,6 +2163,9 @@ class Interp:
                 if present:
                     st.add(comps[c].length - 1)
                     sep[c] = Lin(w)                      # a non-empty component is preceded/followed by its separator
+                elif c == "scheme":
+                    st.add_eq(comps[c].length)
+                    sep[c] = Lin(0)                      # without a scheme no ':' is consumed (it stays in the path)
                 else:
                     st.add_eq(comps[c].length)
                     sx = Lin.sym(self.fresh("sep_" + c))   # the separator may still be there with an empty component
